@@ -675,3 +675,31 @@ Example C09_x86_substitute_memory_example :
     rget s' FREE = Some (HEAP_BASE + 64) /\ hword s' (HEAP_BASE + 64) = HEAP_BASE + 192 /\ hword s' (HEAP_BASE + 128) = 1.
 Proof. exact x86_substitute_memory_example. Qed.
 Print Assumptions C09_x86_substitute_memory_example.
+
+
+(* ================= known finding heap-exhaustion-unchecked (worker sim86b) ================= *)
+(* ALL claims above are about executions that FIT THE HEAP: the refinement theorems take `is_blk` operands and the
+   allocation theorems a frontier below the end of the region as hypotheses, and these hypotheses cannot be
+   discharged for every execution - the generated code never compares the frontier with the end of the heap
+   buffer.  The statement "from every state whose HEAP register holds a block of the region (FREE the next block,
+   heap zeroed) the code of an allocation - Model/X86.v x_store of one integer field - runs to its end" is FALSE on the
+   ISA model: from the last block of the region acquire_block inspects the header at HEAP_BASE + HEAP_SIZE, an
+   out-of-bounds load (natively: corpus/c09/heap_exhaustion.sc overruns the calloc'd buffer silently for 524288
+   live blocks and dies with SIGSEGV for 600000).  The check exhibits it on the REAL code on every run (step
+   heapfull-x86, known finding heap-exhaustion-unchecked).  Program-level theorems carry `heap_fits`
+   (Props/C06.v, C06_codegen_simulates_partial). *)
+From SCC Require Import Proof.X86HeapFull.
+Theorem C09_x86_allocation_stays_in_region_refuted :
+  ~ (forall h : Z, is_blk h -> hf_outcome h = hf_end).
+Proof. exact alloc_in_region_refuted. Qed.
+Print Assumptions C09_x86_allocation_stays_in_region_refuted.
+(* the two runs behind it: from the last block but one the allocation succeeds and leaves HEAP at the last block,
+   FREE at the end of the region; from the last block it faults *)
+Example C09_x86_allocation_at_the_limit :
+  (let r := run 50 2000 (mk_image hf_code) 1 (hf_state (HEAP_BASE + HEAP_SIZE - 128)) in
+   snd (fst r) = hf_end /\
+   rget (snd r) HEAP = Some (HEAP_BASE + HEAP_SIZE - 64) /\ rget (snd r) FREE = Some (HEAP_BASE + HEAP_SIZE) /\
+   hword (snd r) (HEAP_BASE + HEAP_SIZE - 128 + 56) = 7) /\
+  hf_outcome (HEAP_BASE + HEAP_SIZE - 64) = hf_oob_load.
+Proof. exact (conj alloc_before_last_ok alloc_at_last_faults). Qed.
+Print Assumptions C09_x86_allocation_at_the_limit.
